@@ -173,7 +173,7 @@ Proof.
   intros H. induction ps as [|[text [p|]] r IH]; intros acc unk sec.
   - rewrite !interp_go_nil. apply meq_refl.
   - rewrite !interp_go_ref. apply meq_bind; [apply H|]. intro pv.
-    destruct (to_string big_fuel pv) as [[s u] sc]. apply IH.
+    destruct (to_string (ts_need pv) pv) as [[s u] sc]. apply IH.
   - rewrite !interp_go_text. apply IH.
 Qed.
 
